@@ -10,6 +10,7 @@ leg B/C  generated programs and every shipped .bare script x random layout rewri
        models to be deep-equal; parse_script must be deterministic and keep no state between calls."""
 import json
 import random
+import re
 
 from .. import framework as F
 from .. import gen_struct, tlc
@@ -72,7 +73,12 @@ def respace(rnd, line):
         else:
             out.append(c)
         i += 1
-    return ''.join(out)
+    text = ''.join(out)
+    # a blank before the colon that ends a block header (if x :, else :, while c :, for a in b :, function f() :)
+    st = text.rstrip()
+    if st.endswith(':') and q is None and rnd.random() < 0.5 and re.match(r'^\s*(if|elif|else|while|for|function|async)\b', st):
+        text = st[:-1] + rnd.choice([' ', '  ', '\t']) + ':' + text[len(st):]
+    return text
 
 
 def rewrite(rnd, lines):
